@@ -257,11 +257,13 @@ type Assumer interface{ Assumptions() []string }
 
 // DeathClassifier lets a property decide how the death of a worker on a sub-case is
 // keyed (default: violation kind "process-death").
-type Exhaustive interface{ ExhaustiveNote(tier string) (bool, string) }
+type Exhaustive interface {
+	ExhaustiveNote(tier string) (bool, string)
+}
 
 var registry = map[string]Property{}
 
-func Register(p Property) { registry[p.ID()] = p }
+func Register(p Property)       { registry[p.ID()] = p }
 func Lookup(id string) Property { return registry[id] }
 func IDs() []string {
 	var l []string
